@@ -242,7 +242,11 @@ pub fn c06_strategy() -> BoxedStrategy<Case> {
         1 => Just(Op::Settle),
         1 => Just(Op::StreamDrop { k: 0 }),
         1 => Just(Op::Pull { s: s0, max: 1, ri: true, a: true }),
+        1 => Just(Op::ReleaseStalls),
     ];
+    // a consumer that has pulled and is held before it starts waiting (a response stream
+    // blocked by flow control, a slow task): points 13 pull.before_wait, 15 stream.before_wait
+    let stalls = proptest::collection::vec((prop_oneof![Just(13u8), Just(15u8)], 0u8..4).prop_map(|(point, nth)| PointSpec { point, nth, yields: 255 }), 0..3);
     let round = (vec(consumer, 1..5), vec(noise.clone(), 0..2), event, vec(noise, 0..5)).prop_map(|(c, n0, e, n1)| {
         let mut v = c;
         v.extend(n0);
@@ -251,8 +255,9 @@ pub fn c06_strategy() -> BoxedStrategy<Case> {
         v.push(Op::Settle);
         v
     });
-    (any::<u64>(), arb_phase(), any::<u64>(), arb_points(4), vec(round, 1..4), any::<bool>())
-        .prop_map(move |(sched_seed, phase_us, fanout_seed, points, rounds, prefill)| {
+    (any::<u64>(), arb_phase(), any::<u64>(), arb_points(4), stalls, vec(round, 1..4), any::<bool>())
+        .prop_map(move |(sched_seed, phase_us, fanout_seed, mut points, stalls, rounds, prefill)| {
+            points.extend(stalls);
             let mut ops = vec![Op::CreateTopic { t: t0, a: false }, Op::CreateSub { s: s0, t: t0, dl: 10, push: 0, a: false }];
             if prefill {
                 ops.push(Op::Publish { t: t0, n: 2, payload: Payload::plain(), a: false });
